@@ -226,7 +226,7 @@ var specs = map[string]Spec{
 		Engine: "xlate", Run: "^TestNamespace$", Race: false,
 		QuickShards: 16, ThoroughShards: 16, QuickWatchdog: 8 * time.Minute, ThoroughWatchdog: 60 * time.Minute,
 		Level:       "exploration",
-		LevelText:   "The real namespace translator (request and response side) runs on one minimal message per structural path to a namespace-name field for every request/response/stream message type of both services (paths enumerated from the protobuf descriptors, each message type at most twice per path), on every history-event path placed inside every history-event blob site (alone, between and before plain events), and on random populated messages; the result is compared with an independent descriptor-driven translator that has no skip list and no Go-field-name table. Any message on which the implementation's shortcut changes the outcome differs from the oracle by construction.",
+		LevelText:   "The real namespace translator (request and response side) runs on one minimal message per structural path to a namespace-name field for every request/response/stream message type of both services (paths enumerated from the protobuf descriptors, each message type at most twice per path), on every history-event path placed inside every history-event blob site (alone, between and before plain events), on every history-event type carrying a workflow-event link (alone and next to a link-less event of the same type) and carrying several links of which only a later or only the first names a namespace (serialized on every blob site and inline wherever a root holds events directly), and on random populated messages; the result is compared with an independent descriptor-driven translator that has no skip list and no Go-field-name table. Any message on which the implementation's shortcut changes the outcome differs from the oracle by construction.",
 		LevelNote:   "Trusted: the oracle's definition of a namespace-name field (string fields named namespace / workflow_namespace / parent_workflow_namespace and NamespaceInfo.name; 142 of the 180 *namespace* string fields in the closure, the rest are ids) and the reviewed table of 11 history-event blob sites. The assembled interceptor chain is covered by the wire engine.",
 		Technique:   "runtime monitor: differential execution of the real translator against an independent protoreflect oracle over descriptor-enumerated paths + random messages",
 		DesignRef:   "DESIGN.md §4 C12",
@@ -313,7 +313,7 @@ var specs = map[string]Spec{
 		Engine: "tlsmatrix", Run: "^TestMatrix$", Race: false,
 		QuickShards: 8, ThoroughShards: 8, QuickWatchdog: 10 * time.Minute, ThoroughWatchdog: 30 * time.Minute,
 		Level:       "exploration",
-		LevelText:   "Real handshakes against the real TLS configurations: the proxy as server (GetServerTLSConfig in a raw TLS listener and inside the real mux receiver) and as client (GetClientTLSConfig in a raw dial and inside the real mux establisher), against every peer credential from an in-process PKI (valid chain, second valid chain, self-signed, self-signed copying the CA's subject, other CA, expired, not yet valid, wrong extended key usage, wrong DNS name, none; the client presents its certificate regardless of the CA hint) x verification on/off x own certificate yes/no. The verdict is taken on the first application round trip (raw) / yamux ping and session registration (mux) observed from both ends, not on Handshake() returning, because a TLS 1.3 client finishes before the server verifies. Admitted iff the credential chains to the configured CA, is within validity, has the right usage (and, client role, matches the configured name); with skipCAVerification everything connects.",
+		LevelText:   "Real handshakes against the real TLS configurations: the proxy as server (GetServerTLSConfig in a raw TLS listener and inside the real mux receiver) and as client (GetClientTLSConfig in a raw dial and inside the real mux establisher), against every peer credential from an in-process PKI (valid chain, second valid chain, self-signed, self-signed copying the CA's subject, other CA, expired, not yet valid, wrong extended key usage, wrong DNS name, none; the client presents its certificate regardless of the CA hint) x verification on/off x own certificate yes/no. The verdict is taken on the first application round trip (raw) / yamux ping and session registration (mux) observed from both ends, not on Handshake() returning, because a TLS 1.3 client finishes before the server verifies. Four more rows build the proxy's configuration FIRST and then issue a CA leaf whose validity begins / ends about 3 s later: the same configuration object must admit it inside and refuse it outside its validity (validity is judged at connection time, not at configuration time). Admitted iff the credential chains to the configured CA, is within validity, has the right usage (and, client role, matches the configured name); with skipCAVerification everything connects.",
 		LevelNote:   "The matrix is exhaustive over the listed credentials and switches (336 rows). CA loaded from file only (no https CA source in the sandbox). An extra pass (wire engine) assembles a ClusterConnection with TLS on the remote-facing TCP server and on the client towards a cluster, and checks with real gRPC calls that only the valid credential is served in either role and that a plaintext client is not - i.e. that the configuration's TLS settings are really installed.",
 		Technique:   "runtime monitor: exhaustive credential x configuration matrix of real TLS handshakes, verdict on application data observed at both ends",
 		DesignRef:   "DESIGN.md §4 C19",
